@@ -84,12 +84,13 @@ def _variants(prop, case):
         return [{"via": "from_array"}, {"via": RLV[1 + (h // 4) % 7]}]
     OV = ["rev", "tail", "perm", "mask"]
     RAV = ["rows", "rowview", "listview", "revview", "colview", "stepview", "ufunc", "flat"][(h // 8) % 8]
+    ML = ["C", "F", "T"][(h // 64) % 3]
     if op == "rl2_getitem":
-        return [{"tuple1": bool(h & 1)}, {"tuple1": bool(h & 1), "objvia": OV[(h // 2) % 4], "ravia": RAV}]
+        return [{"tuple1": bool(h & 1)}, {"tuple1": bool(h & 1), "objvia": OV[(h // 2) % 4], "ravia": RAV, "mlayout": ML}]
     if op == "rl2_func":
-        return [{"how": ["method", "np"][h % 2]}, {"how": ["method", "np"][h % 2], "objvia": OV[(h // 2) % 4], "ravia": RAV}]
+        return [{"how": ["method", "np"][h % 2]}, {"how": ["method", "np"][h % 2], "objvia": OV[(h // 2) % 4], "ravia": RAV, "mlayout": ML}]
     if op in ("rl2_ufunc", "rl2_concat"):
-        return [{}, {"objvia": OV[(h // 2) % 4], "ravia": RAV}]
+        return [{}, {"objvia": OV[(h // 2) % 4], "ravia": RAV, "mlayout": ML}]
     return [{}]
 
 
